@@ -35,6 +35,19 @@ CHECKS["C03"] = (
     "DESIGN.md section 4, C03",
 )
 
+CHECKS["C14"] = (
+    "property-based testing against a reference model: generated JSON parameter files (identifier kinds, file order, binary-record orientation, missing pairs) and queries (ordered subsets, injected duplicates / unknown names) checked against a harness-side lookup model; differential routes (from_json / from_multiple_json / from_records / new_binary / subset / reversed files); re-implemented group-contribution combining rules; serde round trips of every record type",
+    "Every run writes thousands of synthetic parameter files for eight parameter types, enumerates every ordered query up to size 4 of a small file exhaustively, queries the shipped files in random order, builds group-contribution models from generated chemical records (segment multisets, branched bond lists, permuted tables) on the homo, hetero-EoS and hetero-DFT routes and compares with the documented combining rules evaluated by the harness, and round-trips 22 record types through serde. Exploration over generated inputs; identifier strings are generated from a restricted alphabet.",
+    "Trusted: serde_json, the file system under /verif/work (files are written and removed inside each case). from_json_segments de-duplicating a repeated query is observed and reported in the evidence, not asserted (its documentation does not claim rejection). Non-zero site_indices in binary association records are not generated. Tolerances: routes 1e-13 (measured bitwise), combining rules 1e-11, behaviour under segment permutation 1e-9 (1e-6 on the iterative association path).",
+    "DESIGN.md section 4, C14",
+)
+CHECKS["C15"] = (
+    "exhaustive enumeration of a finite set (every file and record under parameters/) with executable validity predicates: typed parse, unknown fields, duplicate lookup names, referential integrity of binary / segment files, positivity, critical point + saturation curve with finite properties, group-contribution assembly, ideal-gas heat capacities",
+    "The set is finite and is enumerated completely on every run (3535 cases: 31 files, 2208 pure records, 330 ideal-gas records, 968 substance x segment-table assemblies), from the directory listing, so that a new or renamed file fails as 'no record type'. Each pure PC-SAFT / SAFT-VR Mie / SAFT-VRQ Mie record must have a critical point satisfying C06's conditions and an 8-point saturation curve (C04's range) with finite p, rho, h, s, cp, speed of sound.",
+    "Duplicate identifiers are asserted for the substance name (the lookup kind of every shipped example and README); shared cas / iupac / smiles / inchi between records with distinct names (rehner2020 water schemes, esper2023 E/Z isomers, documented hydrogen spin isomers) and a pair stored twice with identical values in held2014_binary.json are reported as observations in the evidence. 'Has a saturation curve' is decided with an initial-temperature ladder and a continuation fallback; failures of the default solver call are C04's business and are listed as observations.",
+    "DESIGN.md section 4, C15",
+)
+
 NOT_YET = {}
 
 def main():
